@@ -82,3 +82,106 @@ func HC18_constDeclShapes() {
 		vfAssert(e != nil && len(e.Members) == count, "C18/every-declared-name-is-a-member")
 	}
 }
+
+// HC18_structComments: the doc comment of a struct declaration is free text; lines that look
+// like gomacro directives, complete or not, must not crash the analysis.
+func HC18_structComments() {
+	fset := token.NewFileSet()
+	tf := fset.AddFile("p.go", -1, 10000)
+	base := token.Pos(tf.Base())
+	pkg := types.NewPackage("example.com/mod/p", "p")
+	namePos := base + 200
+	named := types.NewNamed(types.NewTypeName(namePos, pkg, "Item", nil), types.NewStruct(nil, nil), nil)
+	pkg.Scope().Insert(named.Obj())
+
+	heads := []string{"// gomacro:SQL", "// gomacro:QUERY", "// gomacro:", "// gomacro:no-enum", "// gomacro:Other", "//gomacro:SQL", "// plain"}
+	head := heads[vfChoice("head", len(heads))]
+	tail := vfString("tail", 0, vfParam("C18.comment", 3), "sqltext")
+	doc := &ast.CommentGroup{}
+	pos := base + 20
+	if vfChoice("twoLines", 2) == 1 {
+		doc.List = append(doc.List, &ast.Comment{Slash: pos, Text: "// Item is a thing"})
+		pos += 30
+	}
+	doc.List = append(doc.List, &ast.Comment{Slash: pos, Text: head + tail})
+	spec := &ast.TypeSpec{Name: &ast.Ident{NamePos: namePos, Name: "Item"}, Type: &ast.StructType{Struct: namePos + 5, Fields: &ast.FieldList{Opening: namePos + 12, Closing: namePos + 13}}}
+	gen := &ast.GenDecl{Doc: doc, TokPos: namePos - 5, Tok: token.TYPE, Specs: []ast.Spec{spec}}
+	file := &ast.File{Package: base + 1, Name: &ast.Ident{NamePos: base + 9, Name: "p"}, Decls: []ast.Decl{gen}}
+	pa := &packages.Package{ID: "example.com/mod/p", PkgPath: "example.com/mod/p", Fset: fset, Syntax: []*ast.File{file}, Types: pkg,
+		Imports: map[string]*packages.Package{}}
+
+	var out []SpecialComment
+	panicked, rt, msg := vfCatch(func() { out = fetchStructComments(pa, named) })
+	vfObserve("outcome", msg)
+	vfObserve("n", len(out))
+	vfAssert(!rt, "C18/struct-doc-comment-no-runtime-error")
+	_ = panicked
+}
+
+// c18TimeStruct: a struct type printing like time.Time does (what NewTime looks for).
+func c18TimeNamed(pkgPath, pkgName, typeName string) *types.Named {
+	timePkg := types.NewPackage("time", "time")
+	loc := types.NewNamed(types.NewTypeName(0, timePkg, "Location", nil), types.NewStruct(nil, nil), nil)
+	st := types.NewStruct([]*types.Var{
+		types.NewField(0, timePkg, "wall", types.Typ[types.Uint64], false),
+		types.NewField(0, timePkg, "ext", types.Typ[types.Int64], false),
+		types.NewField(0, timePkg, "loc", types.NewPointer(loc), false),
+	}, nil)
+	return types.NewNamed(types.NewTypeName(0, types.NewPackage(pkgPath, pkgName), typeName, nil), st, nil)
+}
+
+// HC18_createType: the analysis of every bounded go/types shape (named or not) over basic,
+// pointer, slice, array, map, struct, interface, channel and function types either completes or
+// stops with an explicit diagnostic.
+func HC18_createType() {
+	root := &packages.Package{ID: "example.com/mod/p", PkgPath: "example.com/mod/p", Types: types.NewPackage("example.com/mod/p", "p"),
+		Imports: map[string]*packages.Package{}}
+	lib := types.NewPackage("other.org/lib", "lib") // outside the root prefix: no comment lookup
+	var shape func(tag string, depth int) types.Type
+	shape = func(tag string, depth int) types.Type {
+		n := 12
+		if depth <= 0 {
+			n = 4
+		}
+		switch vfChoice(tag+".shape", n) {
+		case 0:
+			return types.Typ[types.Int]
+		case 1:
+			return types.Typ[types.String]
+		case 2:
+			return types.Typ[types.Complex128]
+		case 3:
+			return c18TimeNamed("time", "time", "Time")
+		case 4:
+			return types.NewPointer(shape(tag+"*", depth-1))
+		case 5:
+			return types.NewSlice(shape(tag+"[]", depth-1))
+		case 6:
+			return types.NewArray(shape(tag+"[n]", depth-1), 2)
+		case 7:
+			return types.NewMap(types.Typ[types.String], shape(tag+"{}", depth-1))
+		case 8:
+			f := types.NewField(0, lib, "F", shape(tag+".f", depth-1), false)
+			return types.NewStruct([]*types.Var{f}, []string{`json:"f"`})
+		case 9:
+			return types.NewInterfaceType(nil, nil)
+		case 10:
+			return types.NewChan(types.SendRecv, types.Typ[types.Int])
+		default:
+			return types.NewSignatureType(nil, nil, nil, nil, nil, false)
+		}
+	}
+	typ := shape("t", vfParam("C18.gotypes", 2))
+	switch vfChoice("named", 3) {
+	case 1:
+		typ = types.NewNamed(types.NewTypeName(0, lib, "N", nil), typ.Underlying(), nil)
+	case 2:
+		typ = c18TimeNamed("other.org/lib", "lib", []string{"MyDate", "Stamp"}[vfChoice("timeName", 2)])
+	}
+	ana := &Analysis{Types: map[types.Type]Type{}, Pkg: root}
+	ctx := context{rootPackage: root, enums: enumsMap{}, unions: unionsMap{}}
+	panicked, rt, msg := vfCatch(func() { ana.handleType(typ, ctx) })
+	vfObserve("outcome", msg)
+	vfAssert(!rt, "C18/analysis-of-any-type-shape-no-runtime-error")
+	_ = panicked
+}
